@@ -177,7 +177,7 @@ class Flow:
                 dep.params.add(name)
                 continue
             if d.kind == "for":
-                self._walk(d.ast.iter, d, dep, seen, through_calls, set())
+                self._walk(d.ast.iter, self.cfg.for_init[id(d.ast)], dep, seen, through_calls, set())
                 continue
             st = d.ast
             if isinstance(st, ast.Assign):
